@@ -587,8 +587,18 @@ Definition wiring_getter_phys (m : message) (w : wiring) (g : ngetter) (st : sta
   end.
 
 (** C10 part: declarations, Reset(), CopyFrom()/MarshalFrame() shapes (over the C03 part), setters, getters *)
+(** the struct field of a signal with value descriptions is declared with the enum TYPE NAME <Msg>_<Sig>; every other
+    field with the builtin type itself *)
+Fixpoint enum_fields_ok (m : message) (ss : list signal) (fs : list (name * name)) : bool :=
+  match ss, fs with
+  | s :: ss', (_, tn) :: fs' =>
+      (if has_custom_type s then name_eqb tn (enum_type_name m s)
+       else opt_eqb ctype_eqb (assoc tn builtin_types) (Some (CT (signal_prim_type s)))) && enum_fields_ok m ss' fs'
+  | _, _ => true
+  end.
 Definition wiring_ok_c10 (mi : nat) (m : message) (w : wiring) : bool :=
-  decls_ok mi m w && reset_wiring_ok m w && w_copy w && setters_wiring_ok m w && getters_wiring_ok m w.
+  decls_ok mi m w && reset_wiring_ok m w && w_copy w && setters_wiring_ok m w && getters_wiring_ok m w &&
+  enum_fields_ok m (msg_signals m) (w_fields w).
 
 (** ---- the whole generated package: one wiring per message type (in source order), the `nd` literal
     (<Node>: d.Nodes[ni]) and the dispatcher's cases *)
